@@ -82,6 +82,22 @@ func replayPipeForm(idx int, c *PFCase, out *[]Mismatch) {
 		anyOps[i] = ops[i]
 	}
 	src := ro.FromSlice(c.Inputs)
+	// the reflective forms are given a chain whose element TYPE changes on the way (int -> string -> int -> int ...): operator k still maps the
+	// number v to 2*v+k, but every third operator hands it on as a string and the next one reads it back
+	hetero := make([]any, c.N)
+	for i := range hetero {
+		k := i + 1
+		switch {
+		case k%3 == 2:
+			hetero[i] = ro.Map(func(v int) string { return strconv.Itoa(2*v + k) })
+		case k%3 == 0:
+			hetero[i] = ro.Map(func(s string) int { v, _ := strconv.Atoi(s); return 2*v + k })
+		default:
+			hetero[i] = ops[i]
+		}
+	}
+	endsInString := c.N%3 == 2
+	backToInt := ro.Map(func(s string) int { v, _ := strconv.Atoi(s); return v })
 	var o ro.Observable[int]
 	switch c.Form {
 	case "PipeN":
@@ -89,9 +105,19 @@ func replayPipeForm(idx int, c *PFCase, out *[]Mismatch) {
 	case "PipeOpN":
 		o = pipeOpN(ops)(src)
 	case "Pipe":
-		o = ro.Pipe[int, int](src, anyOps...)
+		if endsInString {
+			o = backToInt(ro.Pipe[int, string](src, hetero...))
+		} else {
+			o = ro.Pipe[int, int](src, hetero...)
+		}
 	case "PipeOp":
-		o = ro.PipeOp[int, int](anyOps...)(src)
+		if endsInString {
+			o = backToInt(ro.PipeOp[int, string](hetero...)(src))
+		} else {
+			o = ro.PipeOp[int, int](hetero...)(src)
+		}
+	case "PipeHomogeneous":
+		o = ro.Pipe[int, int](src, anyOps...)
 	default:
 		add("catalogue", "unknown form "+c.Form)
 		return
